@@ -3,6 +3,7 @@ package client
 import (
 	"errors"
 	"fmt"
+	"sync"
 	"time"
 
 	pkts "github.com/energomonitor/bisquitt/packets"
@@ -22,8 +23,12 @@ type sleepTransaction struct {
 	retryCount          uint
 	disconnectResendNum uint
 	sleepDuration       time.Duration
-	state               transactionState
-	timer               *time.Timer
+	// The transaction is used by the API caller, the receive loop and the
+	// timers concurrently. The mutex guards the fields below and disconnect
+	// and disconnectResendNum.
+	mutex sync.Mutex
+	state transactionState
+	timer *time.Timer
 }
 
 func newSleepTransaction(client *Client, sleepDuration time.Duration) *sleepTransaction {
@@ -76,15 +81,22 @@ func (t *sleepTransaction) Sleep() error {
 			return err
 		}
 		duration := uint16(seconds)
+		t.mutex.Lock()
 		t.disconnect = pkts1.NewDisconnect(duration)
 		t.state = awaitingDisconnect
-		if err := t.client.send(t.disconnect); err != nil {
+		err := t.client.send(t.disconnect)
+		if err == nil {
+			t.timer = time.AfterFunc(t.retryDelay, t.resendDisconnect)
+		}
+		t.mutex.Unlock()
+		if err != nil {
 			t.Fail(err)
 			return err
 		}
-		t.timer = time.AfterFunc(t.retryDelay, t.resendDisconnect)
 	case util.StateAwake:
+		t.mutex.Lock()
 		t.startSleep()
+		t.mutex.Unlock()
 	default:
 		return fmt.Errorf("cannot call Sleep() in %q state", state)
 	}
@@ -92,22 +104,40 @@ func (t *sleepTransaction) Sleep() error {
 }
 
 func (t *sleepTransaction) resendDisconnect() {
+	t.mutex.Lock()
+	if t.state != awaitingDisconnect {
+		// The reply has arrived while the timer was firing.
+		t.mutex.Unlock()
+		return
+	}
 	t.disconnectResendNum++
 	if t.disconnectResendNum > t.retryCount {
+		t.mutex.Unlock()
 		t.log.Debug("DISCONNECT reply timeout.")
 		t.Fail(transactions.ErrNoMoreRetries)
 		return
 	}
 	t.log.Debug("DISCONNECT resend no. %d", t.disconnectResendNum)
-	if err := t.client.send(t.disconnect); err != nil {
-		t.Fail(err)
-		return
+	err := t.client.send(t.disconnect)
+	if err == nil {
+		t.timer = time.AfterFunc(t.retryDelay, t.resendDisconnect)
 	}
-	t.timer = time.AfterFunc(t.retryDelay, t.resendDisconnect)
+	t.mutex.Unlock()
+	if err != nil {
+		t.Fail(err)
+	}
 }
 
 func (t *sleepTransaction) Disconnect(disconnect *pkts1.Disconnect) {
+	t.mutex.Lock()
+	if t.state == sleeping {
+		// A duplicate of the reply to our DISCONNECT (e.g. the gateway has
+		// answered both our DISCONNECT and its retransmission).
+		t.mutex.Unlock()
+		return
+	}
 	if t.state != awaitingDisconnect {
+		t.mutex.Unlock()
 		// Not a reply to our DISCONNECT => the gateway has disconnected us
 		// (e.g. it does not know us anymore when we wake up).
 		t.log.Debug("Received DISCONNECT, quitting")
@@ -116,26 +146,35 @@ func (t *sleepTransaction) Disconnect(disconnect *pkts1.Disconnect) {
 		t.client.cancel()
 		return
 	}
-	t.stopTimer()
+	if t.timer != nil {
+		t.timer.Stop()
+	}
 	t.disconnect = nil
 	t.startSleep()
+	t.mutex.Unlock()
 }
 
 func (t *sleepTransaction) Pingresp(pingresp *pkts1.Pingresp) {
-	if t.state != awaitingPingresp {
-		t.log.Debug("Unexpected packet in %d: %v", t.state, pingresp)
+	t.mutex.Lock()
+	state := t.state
+	t.mutex.Unlock()
+	if state != awaitingPingresp {
+		t.log.Debug("Unexpected packet in %d: %v", state, pingresp)
 		return
 	}
-	t.stopTimer()
 	t.Success()
 }
 
 func (t *sleepTransaction) stopTimer() {
+	t.mutex.Lock()
+	defer t.mutex.Unlock()
+
 	if t.timer != nil {
 		t.timer.Stop()
 	}
 }
 
+// You must acquire t.mutex before calling this function!
 func (t *sleepTransaction) startSleep() {
 	t.log.Debug("Sleeping for %v...", t.sleepDuration)
 	t.state = sleeping
@@ -144,15 +183,25 @@ func (t *sleepTransaction) startSleep() {
 }
 
 func (t *sleepTransaction) wakeup() {
+	t.mutex.Lock()
+	if t.state != sleeping {
+		// The transaction has finished (e.g. the client was disconnected by
+		// the gateway) while the timer was firing.
+		t.mutex.Unlock()
+		return
+	}
 	t.client.setState(util.StateAwake)
 	t.log.Debug("Awake")
 	t.state = awaitingPingresp
 	ping := pkts1.NewPingreq([]byte(t.client.cfg.ClientID))
-	if err := t.client.send(ping); err != nil {
-		t.Fail(err)
-		return
+	err := t.client.send(ping)
+	if err == nil {
+		t.timer = time.AfterFunc(maxPingrespWait, func() {
+			t.Fail(fmt.Errorf("did not receive PINGRESP in %v", maxPingrespWait))
+		})
 	}
-	t.timer = time.AfterFunc(maxPingrespWait, func() {
-		t.Fail(fmt.Errorf("did not receive PINGRESP in %v", maxPingrespWait))
-	})
+	t.mutex.Unlock()
+	if err != nil {
+		t.Fail(err)
+	}
 }
